@@ -576,6 +576,7 @@ pub fn run(op: &str, a: &Args) -> Option<Outcome> {
         }
         ["info", "attr_norm"] => Some(crate::ops_more::info_attr_norm(arg(a, "doc"), arg(a, "expected"))),
         ["info", "roundtrip"] => Some(crate::ops_more::info_roundtrip(arg(a, "doc"))),
+        ["info", "reject"] => Some(crate::ops_more::info_reject(arg(a, "doc"))),
         ["info", "attr_defaults"] => Some(crate::ops_more::info_attr_defaults(arg(a, "doc"), arg(a, "expected"))),
         ["info", "namespace_names"] => Some(crate::ops_more::info_namespace_names(arg(a, "doc"), arg(a, "expected"))),
         ["info", "attr_value"] => Some(crate::ops_more::info_attr_value(arg(a, "doc"))),
@@ -752,6 +753,11 @@ pub fn grid(op: &str, limit: usize) -> (usize, Vec<(Args, Outcome)>) {
         ["dom", "tree_atomic"] => {
             for sc in crate::ops_more::TREE_SCENARIOS {
                 try_one(mk(&[("scenario", sc)]), &mut n, &mut bad);
+            }
+        }
+        ["info", "reject"] => {
+            for d in crate::ops_more::ILL_FORMED {
+                try_one(mk(&[("doc", d)]), &mut n, &mut bad);
             }
         }
         ["info", "roundtrip"] => {
